@@ -121,6 +121,11 @@ func (vm *vm) run() error {
 			vm.prog.disasmInstr(vm.pc)
 		}
 
+		if vm.tos == stackSize && pushesValue(opcode(vm.prog.code[vm.pc])) {
+			vm.pc++
+			return vm.runtimeError("stack overflow")
+		}
+
 		switch instr := readOp(); instr {
 
 		case opCONST:
@@ -356,6 +361,15 @@ func (vm *vm) run() error {
 			// ( -- )
 		}
 	}
+}
+
+// pushesValue tells whether the instruction grows the stack.
+func pushesValue(o opcode) bool {
+	switch o {
+	case opCONST, opZERO, opONE, opTRUE, opFALSE, opNIL, opGETLOCAL, opGETFIELD:
+		return true
+	}
+	return false
 }
 
 func (vm *vm) runtimeError(format string, a ...any) error {
